@@ -9,6 +9,7 @@ import Driver.Arr
 import Driver.C16
 import Driver.C18
 import Driver.C17
+import Driver.ConcD
 import MdspanVerif.Model.ValidB
 open Mdspan Drv
 
@@ -26,6 +27,7 @@ def step (line : String) : String :=
   | "c16" :: fam :: rest => c16Line fam rest
   | "c18" :: lay :: ty :: rest => c18Line lay ty rest
   | "c17" :: fam :: rest => c17Line fam rest
+  | "conc" :: kind :: _ :: rest => concLine kind rest
   | "conv" :: kind :: _ :: rest => convLine kind rest
   | "mapeq" :: kind :: _ :: rest => mapeqLine kind rest
   | "dot" :: rest =>
